@@ -156,25 +156,31 @@ def handle (c : Json) : Json :=
   let env : Env := ⟨jB (jF (jF c "env") "enabled"), jB (jF (jF c "env") "parser")⟩
   let units := (jL (jF c "units")).map unitOf
   let isClass := jS (jF c "kind") == "class"
+  -- `"classdeco": "plain"`: the class is decorated with `pedantic_class` (methods are `@pedantic` functions), else with
+  -- `pedantic_class_require_docstring`; a decorated base class of the class is not part of the case (the model does not look at it)
+  let isPlain := isClass && jS (jF c "classdeco") == "plain"
   let model : Deco :=
-    if isClass then decorateClass env (units.map (fun u => (u.f, annotate u.f u.raw)))
+    if isPlain then decorateClassPlain env (units.map (fun u => (u.f, annotate u.f u.raw)))
+    else if isClass then decorateClass env (units.map (fun u => (u.f, annotate u.f u.raw)))
     else match units with
       | u :: _ => decorateAs env u.kind u.f (annotate u.f u.raw)
       | [] => .wrapper
   -- the property's verdict from the meanings the harness computed with the real interpreter (no model function involved
   -- except typing-object equality)
   let specOut : Out :=
-    if isClass then expectedClass (units.map (fun u => (resolveSig u.ns u.f, u.den)))
+    if isPlain then expectedClassPlain (units.map (fun u => (resolveSig u.ns u.f, u.den)))
+    else if isClass then expectedClass (units.map (fun u => (resolveSig u.ns u.f, u.den)))
     else match units with
       | u :: _ => expected u.req (resolveSig u.ns u.f) u.den
       | [] => .ok
   -- the same verdict from the docstring as written, with the meanings computed by the Lean evaluator in the module's namespace
   let specLean : Out :=
-    if isClass then expectedClass (units.map (fun u => (resolveSig u.ns u.f, specDoc u.ns u.f u.intended)))
+    if isPlain then expectedClassPlain (units.map (fun u => (resolveSig u.ns u.f, specDoc u.ns u.f u.intended)))
+    else if isClass then expectedClass (units.map (fun u => (resolveSig u.ns u.f, specDoc u.ns u.f u.intended)))
     else match units with
       | u :: _ => expected u.req (resolveSig u.ns u.f) (specDoc u.ns u.f u.intended)
       | [] => .ok
-  let applies := if isClass then true else match units with
+  let applies := if isPlain then units.any (fun u => decide (Applies false u.den)) else if isClass then true else match units with
     | u :: _ => decide (Applies u.req u.den)
     | [] => false
   mkObj [
